@@ -343,6 +343,14 @@ static void cmd_sget(long size, int off, const char *seg, int nw, const int *ws)
             tot += segs[n++];
             if (*p == '+') p++;
         }
+        /* the writer under test may have produced fewer octets than the script expected (size was
+         * clipped to what it announced): trim the segmentation instead of calling it a script error */
+        while (tot > size && n > 0) {
+            long cut = tot - size < segs[n - 1] ? tot - size : segs[n - 1];
+            segs[n - 1] -= cut;
+            tot -= cut;
+            if (segs[n - 1] == 0 && tot > size) n--;
+        }
         if (tot != size) { printf("err segsum\n"); exit(3); }
         one_segmentation(size, off, n, segs, nw, ws);
     }
